@@ -421,6 +421,21 @@ func c11Data(n int) []core.SeriesSpec {
 	return out
 }
 
+// c11SpecialData: like c11Data with series 1 a (non-stale) NaN at every sample and
+// series 0 infinite at every other sample.
+func c11SpecialData(n int) []core.SeriesSpec {
+	out := c11Data(n)
+	for i := range out[1].S {
+		out[1].S[i].V = core.F(math.NaN())
+	}
+	for i := range out[0].S {
+		if i%2 == 0 {
+			out[0].S[i].V = core.F(math.Inf(1))
+		}
+	}
+	return out
+}
+
 var c11Queries = []string{`a`, `rate(a[1m])`, `sum by (l) (a)`, `sum(a)`, `avg(a)`, `topk(2, a)`, `bottomk by (l) (1, a)`, `quantile(0.5, a)`, `a + on (l) group_left b`,
 	`a * 2`, `-a`, `count by (l) (a > 3000)`, `max without (m) (a)`, `abs(a) + a`, `stddev by (l) (a)`, `a @ 45.000`, `sum by (l) (a) / on (l) b`}
 
@@ -441,11 +456,21 @@ func init() {
 		if c.Thorough() {
 			fullPerm = 5
 		}
+		type cq struct{ q, opt string }
+		for pass := 0; pass < 2; pass++ {
 		for n := 0; n <= maxN; n++ {
 			base := c11Data(n)
+			if pass == 1 {
+				// second pass: a NaN member and an infinite member (no ties: one of each),
+				// all storage orders of up to 6 series
+				if n < 2 || n > 6 {
+					continue
+				}
+				base = c11SpecialData(n)
+			}
 			na := n
 			var perms [][]int
-			if na <= fullPerm {
+			if na <= fullPerm || (pass == 1 && na <= 5) {
 				perms = permutations(na)
 			} else {
 				for r := 0; r < na; r += (na + 5) / 6 {
@@ -461,15 +486,22 @@ func init() {
 				}
 				perms = append(perms, rev)
 			}
-			type cq struct{ q, opt string }
 			var cqs []cq
 			for _, q := range c11Queries {
 				cqs = append(cqs, cq{q, "none"})
 			}
+			if pass == 1 {
+				cqs = nil
+				for _, q := range []string{`topk(2, a)`, `bottomk(2, a)`, `topk(3, a)`, `bottomk(1, a)`, `topk by (l) (1, a)`, `max(a)`, `min(a)`, `sum(a)`, `avg(a)`, `quantile(0.5, a)`, `max by (l) (a)`} {
+					cqs = append(cqs, cq{q, "none"})
+				}
+			}
 			// with the default optimizers both operands share one merged select
 			cqs = append(cqs, cq{`a{l="0"} + a`, ""}, cq{`sum(a{l="1"}) / sum(a)`, ""}, cq{`a + on (m) group_left a{l="0"}`, ""})
 			// tied values: which series topk keeps (known finding F12)
-			cqs = append(cqs, cq{`topk(1, a * 0)`, "none"}, cq{`bottomk by (l) (1, clamp_max(a, 1))`, "none"})
+			if pass == 0 {
+				cqs = append(cqs, cq{`topk(1, a * 0)`, "none"}, cq{`bottomk by (l) (1, clamp_max(a, 1))`, "none"})
+			}
 			for _, qo := range cqs {
 				q := qo.q
 				ref := core.RunEngine(&core.Case{Q: q, Data: base, W: w, O: core.Opts{Optimizers: qo.opt, Procs: 2}}, storeFor(&core.Case{Data: base}))
@@ -528,6 +560,7 @@ func init() {
 					}
 				}
 			}
+		}
 		}
 	})
 	check.Replayers["enum:C11/enum"] = func(f *check.Failure) (string, string) {
